@@ -168,9 +168,12 @@ def decode_post(b, level):
     return op
 
 
-_plen = st.sampled_from([0, 0, 0, 0, 0, 1, 1, 2])
-_pbytes = [None] + [st.lists(_byte, min_size=6 * n, max_size=6 * n) for n in range(1, 3)]
-_xbytes = st.lists(_byte, min_size=6, max_size=6)
+# one draw of raw bytes per case ([0..5] units / property forms, [6] number of operations, [7..18] two operations): a fixed-size
+# st.binary costs half of a list of integers and is uniform
+_xbytes = st.binary(min_size=19, max_size=19)
+_PLEN = (0, 1, 1, 0, 2, 0, 1, 0)
+# NOTE on rates: Hypothesis fills the tail of about every second example with its simplest choices (all-zero bytes), so byte 0 always
+# decodes to the plain case (no operation, no unit plan, int64 tags, float64 vectors) and the rates below are about twice the share wanted
 
 # ----------------------------------------------------------------------------- D: working-unit configurations
 UNIT_CFGS = (
@@ -243,13 +246,10 @@ def vec_array(vec, form, group=1):
 def extras(draw, u, level='full'):
     """-> dict of the optional case fields 'post', 'units', 'props' (a plain function of the caller's draw)"""
     xb = draw(_xbytes)
-    n = draw(_plen)
-    post = []
-    if n:
-        pb = draw(_pbytes[n])
-        post = [decode_post(pb[6 * i:6 * i + 6], level) for i in range(n)]
+    n = _PLEN[xb[6] % len(_PLEN)]
+    post = [decode_post(xb[7 + 6 * i:13 + 6 * i], level) for i in range(n)]
     units = None
-    if not u.get('whole') and xb[0] % 12 == 0:
+    if not u.get('whole') and xb[0] % 7 == 1:
         units = {'cfg': UNIT_CFGS[xb[1] % len(UNIT_CFGS)], 'pre': bool(xb[2] % 3)}
     return {'post': post, 'units': units,
             'props': {'tag': TAG_FORMS[xb[3] % len(TAG_FORMS)], 'vec': VEC_FORMS[xb[4] % len(VEC_FORMS)]}}
@@ -331,6 +331,14 @@ def sym_of(b0, b1, b2, rows_allowed, improper_allowed):
     rows = PERMS[b0 % 6] if rows_allowed else PERMS[0]
     cols = PERMS[b1 % 6]
     sg = [1 if (b2 >> i) & 1 else -1 for i in range(3)]
+    if b0 % 3 == 0:
+        # a third: the cell stays lower triangular, with negative diagonal entries ("already in normal form" shortcuts)
+        rows = cols = PERMS[0]
+        if min(sg) > 0:
+            sg[b1 % 3] = -1
+    elif b0 % 3 == 1 and rows_allowed:
+        # a third: upper triangular (vectors and axes both reversed in order), any signs
+        rows = cols = PERMS[4]
     if not improper_allowed:
         par = 1
         for p in (rows, cols):
